@@ -1,9 +1,16 @@
 import AdeptProofs.Lemmas.Tape
+import AdeptProofs.Lemmas.TapeLawFree
 /-!
 # C13 — parallel Jacobian computation equals the serial one
 
 The OpenMP routines are modelled (AdeptModel/Tape.lean) as a fold over the blocks in the order `sched`
 in which the threads happen to execute them; each block starts from a freshly zeroed private buffer.
+
+Two layers.  The first (`C13_omp_*_spec`, `C13_omp_eq_serial_*`) is stated over a commutative ring and says that the
+parallel routines compute the Jacobian.  The second (`…_lawfree`, end of the file) assumes NO algebraic law at all: the
+carrier has the operations `+ * 0 1` and a zero test and nothing else, so "equal" there means "the same tree of
+operations" — on IEEE doubles, the same bits.  It is the statement the property makes ("element for element identical"),
+and the one checks/c13.py ties to the C++ on tapes with non-integer multipliers, bit for bit.
 -/
 namespace Adept.Tape
 variable {R : Type} [CommRing R] [DecidableEq R]
@@ -59,6 +66,75 @@ theorem C13_dispatch (haveOmp disabled : Bool) (count W maxThreads : Nat) :
 /-! The Jacobian routines only read the recording: in the model they take the tape as an argument and return
 the output buffer (nothing to prove); on the real code the correspondence check compares the tape dump
 before and after every Jacobian call. -/
+
+/-! ## Law-free layer: the parallel result is the serial result operation for operation
+
+No ring, no associativity, no `0 + x = x`: `R` is ANY type with `+ * 0 1`, `nz : R → Bool` is ANY zero test.  The forward
+routines are `jacFwdSerial` / `jacFwdOmp` (they never needed a law to run); the reverse routines are the transcriptions
+`jacRevSerialB` / `jacRevOmpB` of the code as compiled, with the block-wide `n_non_zero` flag (see AdeptModel/Tape.lean).
+What differs between the two routines — which kernel runs on the short last block (full width with zero seeds in the
+unused lanes in `jacobian_forward_openmp`, `kernel_extra` on `n % W` lanes in `jacobian_forward`), the order in which the
+blocks are executed, by how many threads — is proved not to reach any output cell. -/
+
+section LawFree
+variable {R : Type} [Add R] [Mul R] [Zero R] [One R]
+
+/-- Forward, law-free: for every carrier with the four operations, every recording, every `(m, n, W ≥ 1)`, every injective
+    layout and EVERY schedule that runs each block once, `jacobian_forward_openmp` leaves in each cell `(i,j)` exactly the
+    expression `Stack::compute_tangent_linear` computes from the seed `e_{x_j}`, read at `y_i`, and touches no other cell. -/
+theorem C13_omp_fwd_cells_lawfree (t : List (Stmt R)) (c : JacCfg) (indep dep : List Nat) (sched : List Nat) (out : Out R)
+    (hW : 0 < c.W) (hl : LayoutOK dep.length indep.length c.depOff c.indepOff out.length)
+    (hs : sched.Perm (List.range (nBlocks c.W indep.length))) :
+    LF.JacSpecE (fun i j => LF.entryFwd t c.maxGrad (indep.getD j 0) (dep.getD i 0)) dep.length indep.length
+      c.depOff c.indepOff out (jacFwdOmp t c indep dep sched out) :=
+  LF.jacFwdOmp_spec t c indep dep sched out hW hl hs
+
+/-- Forward, law-free: parallel = serial as buffers, cell for cell, operation for operation — although the parallel
+    routine runs the full-width kernel on the short last block and the serial one `jacobian_forward_kernel_extra`. -/
+theorem C13_omp_eq_serial_fwd_lawfree (t : List (Stmt R)) (c : JacCfg) (indep dep : List Nat) (sched : List Nat) (out : Out R)
+    (hW : 0 < c.W) (hl : LayoutOK dep.length indep.length c.depOff c.indepOff out.length)
+    (hs : sched.Perm (List.range (nBlocks c.W indep.length))) :
+    jacFwdOmp t c indep dep sched out = jacFwdSerial t c indep dep out :=
+  (LF.jacFwdOmp_spec t c indep dep sched out hW hl hs).unique (LF.jacFwdSerial_spec t c indep dep out hW hl)
+
+/-- Reverse, law-free, for ANY zero test: parallel = serial as buffers.  (Each block of `jacobian_reverse_openmp` is the
+    same computation as the block of `jacobian_reverse` with the same index — same lanes, same flag — and the blocks write
+    disjoint cells.) -/
+theorem C13_omp_eq_serial_rev_lawfree (nz : R → Bool) (t : List (Stmt R)) (c : JacCfg) (indep dep : List Nat)
+    (sched : List Nat) (out : Out R)
+    (hW : 0 < c.W) (hl : LayoutOK dep.length indep.length c.depOff c.indepOff out.length)
+    (hs : sched.Perm (List.range (nBlocks c.W dep.length))) :
+    jacRevOmpB nz t c indep dep sched out = jacRevSerialB nz t c indep dep out :=
+  (LF.jacRevOmpB_spec nz t c indep dep sched out hW hl hs).unique (LF.jacRevSerialB_spec nz t c indep dep out hW hl)
+
+/-- Any two schedules (two thread counts, two static partitions, two runs) give the same forward buffer … -/
+theorem C13_any_two_schedules_fwd_lawfree (t : List (Stmt R)) (c : JacCfg) (indep dep : List Nat) (s₁ s₂ : List Nat)
+    (out : Out R) (hW : 0 < c.W) (hl : LayoutOK dep.length indep.length c.depOff c.indepOff out.length)
+    (h₁ : s₁.Perm (List.range (nBlocks c.W indep.length))) (h₂ : s₂.Perm (List.range (nBlocks c.W indep.length))) :
+    jacFwdOmp t c indep dep s₁ out = jacFwdOmp t c indep dep s₂ out :=
+  (LF.jacFwdOmp_spec t c indep dep s₁ out hW hl h₁).unique (LF.jacFwdOmp_spec t c indep dep s₂ out hW hl h₂)
+
+/-- … and the same reverse buffer. -/
+theorem C13_any_two_schedules_rev_lawfree (nz : R → Bool) (t : List (Stmt R)) (c : JacCfg) (indep dep : List Nat)
+    (s₁ s₂ : List Nat) (out : Out R) (hW : 0 < c.W)
+    (hl : LayoutOK dep.length indep.length c.depOff c.indepOff out.length)
+    (h₁ : s₁.Perm (List.range (nBlocks c.W dep.length))) (h₂ : s₂.Perm (List.range (nBlocks c.W dep.length))) :
+    jacRevOmpB nz t c indep dep s₁ out = jacRevOmpB nz t c indep dep s₂ out :=
+  (LF.jacRevOmpB_spec nz t c indep dep s₁ out hW hl h₁).unique (LF.jacRevOmpB_spec nz t c indep dep s₂ out hW hl h₂)
+
+/-- The C++ kernels loop statement by statement over all lanes; lane by lane (`kernelFwd`, used above) is the same
+    computation. -/
+theorem C13_kernel_statement_major_lawfree (t : List (Stmt R)) (nl : Nat) (b : Buf R) :
+    kernelFwdS t nl b = kernelFwd t nl b := LF.kernelFwdS_eq t nl b
+
+end LawFree
+
+/-- Link of the two layers: over a commutative ring the reverse routines as compiled (block-wide zero flag) ARE the
+    lane-wise routines of the first layer, so `C13_omp_rev_spec` / `C13_omp_eq_serial_rev` speak about the compiled code. -/
+theorem C13_rev_blockwise_eq_lanewise (t : List (Stmt R)) (c : JacCfg) (indep dep : List Nat) (sched : List Nat) (out : Out R) :
+    jacRevOmpB (fun a => decide (a ≠ 0)) t c indep dep sched out = jacRevOmp t c indep dep sched out ∧
+    jacRevSerialB (fun a => decide (a ≠ 0)) t c indep dep out = jacRevSerial t c indep dep out :=
+  ⟨LF.jacRevOmpB_ring t c indep dep sched out, LF.jacRevSerialB_ring t c indep dep out⟩
 
 /-! Non-vacuity: 5 independents, W = 2 gives 3 blocks, the last of size 1; `[2,0,1]` is a schedule. -/
 example : nBlocks 2 5 = 3 ∧ ompBlockSize 2 5 3 2 = 1 ∧ ([2, 0, 1] : List Nat).Perm (List.range (nBlocks 2 5)) := by
